@@ -36,25 +36,25 @@ PROPS = {
 
 RULES = {
     'C01': 'Seeded programs mixing yield/mutex/cond/semaphore/rwlock/barrier/channel/join/sleep/pipe ops on 1-4 kernel threads; ghost fiber state machine checked at every context switch. Non-trivial: >=2 kernel threads and at least one fiber migrated between threads or a wake-up raced with a suspension.',
-    'C02': 'Deque in isolation (1 owner + 1-3 thieves, lengths 0-3 and across the 256-slot growth boundary) and whole-runtime programs with pending/slot ghosts. Non-trivial: at least one steal attempt overlapped an owner operation (deque) or a fiber was stolen (runtime).',
-    'C03': 'Fibers lock/trylock/unlock 1-2 mutexes with yields or sleeps inside the critical section. Non-trivial: >=2 blocking lock operations in the program.',
-    'C04': 'Owner/target fiber pairs running join, tryjoin*, detach in both arrival orders. Non-trivial: >=2 kernel threads or a tryjoin that had to be repeated.',
+    'C02': 'Deque in isolation (1 owner + 1-3 thieves, lengths 0-3, across the 256-slot growth boundary, and starting from arrays of 1-8 slots so that pushes grow the array under the thieves; x86-TSO store buffering in 40 % of the runs) and whole-runtime programs with pending/slot ghosts. Non-trivial: at least one steal attempt overlapped an owner operation (deque) or a fiber was stolen (runtime).',
+    'C03': 'Fibers lock/trylock/unlock 1-2 mutexes with yields or sleeps inside the critical section; 15 % of the runs are the deferred-unlock scenario (cond_wait hands the unlock to the next fiber or the maintenance fiber, a contender is descheduled between announcing and queueing, pollers yield or spawn/join). Non-trivial: >=2 blocking lock operations in the program.',
+    'C04': 'Owner/target fiber pairs running join, tryjoin*, detach in both arrival orders, second joiners, racing tryjoins, detach-then-join and join-then-detached-by-a-third-fiber. Non-trivial: >=2 kernel threads or a tryjoin that had to be repeated.',
     'C05': 'Token and strict programs on one mutex + one condition variable. Non-trivial: at least one waiter actually blocked in fiber_cond_wait.',
     'C06': 'wait/trywait/post scripts, initial value 0-3. Non-trivial: at least one wait blocked.',
     'C07': 'Reader/writer scripts with try variants. Non-trivial: program has >=1 writer and >=2 fibers.',
     'C08': 'Pipe/socketpair/listener programs over the simulated kernel with all shims in rotation and kernel faults. Non-trivial: at least one shim call suspended its fiber.',
-    'C09': 'Sleeps of 0..3s mixed with busy fibers, stalls and coalesced timer expirations. Non-trivial: >=2 sleepers or a busy/stalled kernel thread.',
-    'C10': 'Setter/poller/yielder fibers. Non-trivial: >=1 poller and >=3 fibers.',
-    'C11': 'Bounded, unbounded, single-producer and multi channels and raw signals. Non-trivial: a receiver (or sender) blocked at least once.',
-    'C12': 'count 1-5 fibers, 1-6 rounds back to back on one barrier, 1-4 kernel threads. Non-trivial: count>=2 and (>=2 kernel threads or >=2 rounds).',
+    'C09': 'Sleeps of 0..3s through fiber_sleep/usleep/nanosleep/sleep mixed with busy fibers, stalls and coalesced timer expirations; 6 % of the runs check that sleeps of 71 minutes to 46 days (around multiples of 2^32 us) have not returned after 100-600 ms. Non-trivial: >=2 sleepers or a busy/stalled kernel thread.',
+    'C10': 'Setter/poller/yielder fibers (2-6, or a crowd of up to 800), optionally fibers that become ready through a mutex hand-off; 15 % of the runs are the deferred-unlock scenario shared with C03. Non-trivial: >=1 poller and >=3 fibers.',
+    'C11': 'Bounded, unbounded, single-producer and multi channels and raw signals; a fifth of the budget goes to the multi-waiter signal harness. Non-trivial: a receiver (or sender) blocked at least once.',
+    'C12': 'count 1-5 fibers, 1-6 rounds back to back on one barrier in dirty heap memory, optionally destroyed and initialised again for another count, 1-4 kernel threads. Non-trivial: count>=2 and (>=2 kernel threads or >=2 rounds).',
     'C13': 'Threads push/trypop with node reuse through the reclaim callback; history checked for linearizability. Non-trivial: >=2 threads with overlapping operations.',
     'C14': 'publish/validate/use/release/retire protocol on shared cells with 1-4 records x 1-3 slots (non-trivial: a retire happened while another record held a validated protection); and the MPMC FIFO built on hazard pointers, with reclaimed nodes handed back to the allocator in a third of the runs so that any dereference of a reclaimed node is a memory violation (non-trivial: >=2 threads with overlapping operations).',
-    'C15': 'MPSC, SPSC and relaxed-MPSC queues against FIFO models. Non-trivial: a pop overlapped a push.',
-    'C16': 'Ring buffer capacity 2/4/8 with pre-advanced indices. Non-trivial: >=2 threads with overlapping operations.',
-    'C17': 'Threads push items and drain as worker when told to. Non-trivial: >=2 threads pushed.',
+    'C15': 'MPSC, SPSC and relaxed-MPSC queues against FIFO models, node recycling, optionally one NULL payload, x86-TSO store buffering in 40 % of the runs. Non-trivial: a pop overlapped a push.',
+    'C16': 'Ring buffer capacity 2/4/8 with pre-advanced indices (0, 2^32, 2^64 wrap, random); try operations, or producer threads with blocking push and consumer threads with blocking pop. Non-trivial: >=2 threads with overlapping operations.',
+    'C17': 'Threads push items and drain as worker when told to; in a quarter of the runs the counters are first moved to just below 2^32 under an active worker. Non-trivial: >=2 threads pushed.',
     'C18': 'lock/trylock/unlock with ticket counters next to the 2^32 wrap. Non-trivial: a lock call had to spin.',
     'C19': 'Bare fiber_context_* switch sequences with allocation faults, plus the register/stack shim on every suspending call of the mixed runtime programs. Non-trivial: >=3 contexts or a migrated fiber.',
-    'C20': 'LIFO, dist FIFO and flushable stack histories with immediate node reuse; multi-signal wait/raise on the runtime. Non-trivial: a DWCAS failed at least once or a waiter blocked.',
+    'C20': 'LIFO, dist FIFO and flushable stack histories with immediate node reuse; multi-signal wait/raise on the runtime, including a scripted stale-snapshot (ABA) interleaving with the raiser held before its double-word CAS. Non-trivial: a DWCAS failed at least once or a waiter blocked.',
 }
 
 COMPONENTS = {
